@@ -98,6 +98,23 @@ pub fn configs(tier: Tier, judge: u32, liveness: bool) -> Vec<OutCfg> {
                 }
             }
         }
+        // streamed QoS 1 publishes occupy a window slot like any other publish
+        for (cap, senders) in [(1u16, vec![SK::Stream { qos: 1, size: 6, plan: 1 }, SK::Q1]), (1, vec![SK::Q1, SK::Stream { qos: 1, size: 6, plan: 1 }, SK::Q1]), (2, vec![SK::Stream { qos: 1, size: 6, plan: 1 }, SK::Q1, SK::Q1Loop(2)])] {
+            v.push(OutCfg {
+                ep: ep_for(EpCfg::new(ver, role), cap, false),
+                cap,
+                senders,
+                cancels: 0,
+                batch: false,
+                bp: 0,
+                peer: PeerMode::Correct,
+                judge,
+                prologue: 0,
+                peer_max_packet: 0,
+                inbound: 0,
+                may_close: false,
+            });
+        }
         // a sender that is woken but then fails locally (over-size packet) does not occupy the slot it was
         // woken for: the next parked sender must get the wake-up
         if liveness {
